@@ -286,6 +286,8 @@ pub struct WorkerArgs {
     pub nshards: u64,
     pub out: String,
     pub only_idx: Option<u64>,
+    /// stop after this many cases (used by the slow sanitizer tiers: Miri, valgrind)
+    pub max_cases: Option<u64>,
 }
 
 fn prop_salt(id: &str) -> u64 {
@@ -319,6 +321,12 @@ pub fn run_worker(prop: &Prop, a: &WorkerArgs) -> i32 {
         if a.only_idx.is_none() && start.elapsed().as_secs() >= budget {
             completed = false;
             break;
+        }
+        if let Some(m) = a.max_cases {
+            if acc.evaluations >= m {
+                completed = false;
+                break;
+            }
         }
         // current index marker for crash attribution (cheap: rewritten at most every 2 ms
         // would lose precision, so write every case but only when cases are slow; for fast
